@@ -28,7 +28,7 @@ EXHAUSTIVE = {"flag": True, "scope": "all shapes 0..3 x 0..3 for every directed 
 ANCHOR_FUNCS = ["table:Table.__init__", "table:Table.__rshift__", "table:Table.__lshift__", "table:Table.T", "table:Table.__getitem__", "table:Table.__iter__"]
 REQUIRED_STRATA = {"recompute": 200, "structural": 200, "steps": 2000}
 
-OPS = [">>vector", ">>vector-wrong", ">>list", ">>dict", ">>dict-wrong", ">>table", ">>table-wrong", "<<row", "<<row-short", "<<row-long", "<<table", "<<row-widen", ">>dict-own-column",
+OPS = ["rowslice-2d", "<<table-zero-rows", "<<row-bytearray", ">>nothing", ">>vector", ">>vector-wrong", ">>list", ">>dict", ">>dict-wrong", ">>table", ">>table-wrong", "<<row", "<<row-short", "<<row-long", "<<table", "<<row-widen", ">>dict-own-column",
 	"rowslice", "rowmask", "T.T", "attr", "attr-wrong", "ragged-ctor", "attr-iterable", "setitem-table", "<<table-dupnames", ">>table-dupnames", "vector>>"]
 
 
@@ -177,6 +177,66 @@ def run_structural(chk, spec):
 			chk.fail("<< appends rows to every column", f"structural/{op}/raises/{type(o.exc).__name__}", f"{spec!r} raised {o!r}")
 			return
 		expect_cells(chk, spec, o.value, exp, "<< appends rows to every column", "wrong-cells")
+	elif op == "rowslice-2d":
+		# the two-axis spelling of a row slice: t[rows, :] and t[rows, column slice]
+		if c == 0:
+			chk.skip("structural-no-columns")
+			return
+		sl = slice(*spec["key"])
+		for lab, key, sel in (("t[rows, :]", (sl, slice(None)), list(range(c))), ("t[rows, 0:c]", (sl, slice(0, c)), list(range(c))), ("t[rows, names]", (sl, tuple(names)), list(range(c)))):
+			o = call(lambda: t[key])
+			if not o.ok:
+				chk.fail("row slices and masks apply uniformly to all columns", f"structural/{op}/raises/{type(o.exc).__name__}", f"{spec!r} {lab} raised {o!r}")
+				return
+			exp = [cols[j][sl] for j in sel]
+			if exp and len(exp[0]) and isinstance(o.value, Table) and len(o.value) == 0:
+				chk.fail("row slices and masks apply uniformly to all columns", f"structural/{op}/rows-lost", f"{spec!r} {lab}: zero rows, model {short(exp, 160)}")
+				return
+			expect_cells(chk, dict(spec, form=lab), o.value, exp, "row slices and masks apply uniformly to all columns", "wrong-cells")
+	elif op in ("<<table-zero-rows", ">>nothing"):
+		# appending nothing: the result holds the same cells and is a table of its own (a later write to it leaves the operand's cells untouched)
+		if c == 0 or r == 0:
+			chk.skip("structural-no-cells")
+			return
+		if op == "<<table-zero-rows":
+			o = call(lambda: t << (t[0:0] if spec["key"][0] else Table([Vector([], name=nm) for nm in names])))
+		else:
+			o = call(lambda: t >> Table(()))
+		if not o.ok:
+			chk.skip("structural-append-nothing-refused")
+			return
+		res = o.value
+		expect_cells(chk, spec, res, [list(x) for x in cols], "appending nothing preserves the cells", "wrong-cells")
+		if isinstance(res, Table) and len(res) and res.cols():
+			w = call(res.__setitem__, (0, 0), res.cols()[0]._underlying[-1] if cols[0][0] != cols[0][-1] else pool.make_like(rng, cols[0][0]))
+			w2 = call(lambda: res.cols()[-1].__setitem__(r - 1, None))
+			if M.snap_table(t) != before:
+				chk.fail("structural operations leave existing cells untouched (the result is a table of its own)", f"structural/{op}/operand-follows-result", f"{spec!r}: writing into the result changed the operand: {short(before, 160)} -> {short(M.snap_table(t), 160)}")
+				return
+	elif op == "<<row-bytearray":
+		# a cell that is itself a byte buffer is ONE cell
+		if r == 0:
+			chk.skip("structural-no-rows")
+			return
+		bcol = [rng.choice([bytearray(b"ab"), bytearray(b"\x07"), bytearray(b"")]) for _ in range(r)]
+		tb = Table([Vector(list(range(r)), name="n"), Vector(list(bcol), name="buf"), Vector([b"z"] * r, name="z")])
+		cell = rng.choice([bytearray(b"\x07"), bytearray(b"xyz"), bytearray(b"")])
+		row = [99, cell, b"q"]
+		form = spec["key"][0]
+		o = call(lambda: tb << (row if form == 0 else (tuple(row) if form == 1 else Vector(row))))
+		if not o.ok:
+			chk.fail("<< appends rows to every column", f"structural/{op}/raises/{type(o.exc).__name__}", f"{spec!r}: row {row!r} raised {o!r}")
+			return
+		exp = [list(range(r)) + [99], list(bcol) + [cell], [b"z"] * r + [b"q"]]
+		res = o.value
+		if not isinstance(res, Table):
+			chk.fail("<< appends rows to every column", f"structural/{op}/not-a-table", f"{spec!r}: row {row!r} -> {type(res).__name__}")
+			return
+		got = tcells(res)
+		if len(got) != 3 or any(not M.eq_list(g, e) for g, e in zip(got, exp)) or type(got[1][-1]) is not bytearray:
+			chk.fail("<< appends rows to every column", f"structural/{op}/wrong-cells", f"{spec!r}: row {row!r}: cells {short(got, 200)} vs model {short(exp, 200)}")
+		fail_rect(chk, res, "result", spec)
+		return
 	elif op in ("rowslice", "rowmask"):
 		if c == 0:
 			chk.skip("structural-no-columns")
@@ -365,7 +425,13 @@ def run(chk):
 		for c in range(4):
 			for op in OPS:
 				variants = [(None, None, None)]
-				if op == "rowslice":
+				if op == "rowslice-2d":
+					variants = [(None, None, None), (1, None, None), (None, None, -1), (None, -1, None), (-1, None, -1), (5, None, -2), (2, 0, -1), (-9, 2, 2), (None, None, -2)]
+				elif op == "<<row-bytearray":
+					variants = [(0, 0), (1, 0), (2, 0)]
+				elif op == "<<table-zero-rows":
+					variants = [(0, 0), (1, 0)]
+				elif op == "rowslice":
 					variants = [(None, None, None), (1, None, None), (None, -1, None), (None, None, -1), (5, 9, None), (1, 1, None), (-9, 2, 2)]
 				elif op == "rowmask":
 					variants = [(m, flag) for m in range(2 ** r) for flag in (0, 1)]
